@@ -126,7 +126,7 @@ impl Rng {
     }
     /// f32 from the pool of values that fast paths and special cases key on
     pub fn special(&mut self) -> f32 {
-        *self.pick(&[0.0f32, -0.0, 1.0, -1.0, 2.0, 0.5, f32::EPSILON, 1.0 - f32::EPSILON / 2.0, 1.0 + f32::EPSILON, f32::MIN_POSITIVE, 16_777_216.0, 16_777_217.0 - 1.0, 1e-6, -1e-5])
+        *self.pick(&[0.0f32, -0.0, 1.0, -1.0, 2.0, 0.5, f32::EPSILON, 1.0 - f32::EPSILON / 2.0, 1.0 + f32::EPSILON, f32::MIN_POSITIVE, 1e-40, -3e-45, 16_777_216.0, 16_777_217.0 - 1.0, 1e-6, -1e-5])
     }
     /// Two distinct, increasing timestamps whose difference is far below one f32 ulp of their value in
     /// seconds (they collide when compared after conversion to f32 seconds), at magnitudes from 1 s to
